@@ -17,6 +17,8 @@
 #include <sstream>
 #include <string>
 #include <vector>
+#include <sys/wait.h>
+#include <unistd.h>
 
 using namespace yorel::yomm2;
 
@@ -196,37 +198,65 @@ struct DefinitionClient : IClient {
     std::string observe() override { return observe_catalog(M18::fn.specs, objs); }
 };
 
-int main(int argc, char** argv) {
-    if (argc < 3) return 2;
-    std::ifstream in(argv[1]);
-    FILE* out = std::fopen(argv[2], "w");
-    if (!in || !out) return 2;
-    std::string line;
+static void run_script(const std::vector<std::string>& lines, FILE* out) {
     std::unique_ptr<IClient> cl;
-    while (std::getline(in, line)) {
+    for (auto& line : lines) {
         std::istringstream ss(line);
         std::string k;
         ss >> k;
         if (k == "S") {
             std::string id, client;
             ss >> id >> client;
-            cl.reset(); // the previous client unregisters what it still has
             if (client == "node") cl.reset(new NodeClient);
             else if (client == "class") { P18::classes.clear(); cl.reset(new ClassClient); }
             else if (client == "method") cl.reset(new MethodClient);
             else { M18::fn.specs.clear(); cl.reset(new DefinitionClient); }
-            std::fprintf(out, "{\"e\":\"reset\",\"script\":\"%s\",\"bindings\":[\"%s\"]}\n", id.c_str(), client.c_str());
         } else if (k == "p" || k == "r") {
             int n;
             ss >> n;
             if (k == "p") cl->push(n); else cl->remove(n);
             std::fprintf(out, "{\"e\":\"%s\",\"n\":%d%s}\n", k == "p" ? "push" : "remove", n, cl->observe().c_str());
+            std::fflush(out);
         } else if (k == "c") {
             cl->clear();
             std::fprintf(out, "{\"e\":\"clear\",\"n\":0%s}\n", cl->observe().c_str());
+            std::fflush(out);
+        }
+    }
+}
+
+int main(int argc, char** argv) {
+    if (argc < 3) return 2;
+    std::ifstream in(argv[1]);
+    FILE* out = std::fopen(argv[2], "w");
+    if (!in || !out) return 2;
+    std::string line;
+    std::vector<std::vector<std::string>> scripts;
+    while (std::getline(in, line)) {
+        if (line.rfind("S ", 0) == 0) scripts.emplace_back();
+        if (!scripts.empty() && !line.empty()) scripts.back().push_back(line);
+    }
+    for (auto& sc : scripts) {
+        std::istringstream ss(sc[0]);
+        std::string k, id, client;
+        ss >> k >> id >> client;
+        std::fprintf(out, "{\"e\":\"reset\",\"script\":\"%s\",\"bindings\":[\"%s\"]}\n", id.c_str(), client.c_str());
+        std::fflush(out);
+        // each script in its own child: a corrupted list cannot take the driver down
+        pid_t pid = fork();
+        if (pid == 0) {
+            alarm(60);
+            run_script(sc, out);
+            std::fflush(out);
+            _exit(0);
+        }
+        int status = 0;
+        waitpid(pid, &status, 0);
+        if (WIFSIGNALED(status)) {
+            std::fprintf(out, "{\"e\":\"died\",\"sig\":%d}\n", WTERMSIG(status));
+            std::fflush(out);
         }
     }
     std::fclose(out);
-    std::fflush(nullptr);
-    _exit(0);
+    return 0;
 }
